@@ -52,6 +52,132 @@ class RandomWalk:
   on_block = on_exit
 
 
+class HotWalk:
+  """Random walk that pre-empts rarely, except at "hot" lines: lines of
+  functions that touch module-level mutable state or lazily fill a private
+  attribute of an object (found by a static scan of the code under test, see
+  hot_lines()).  After a switch the other thread runs long stretches, which is
+  what a check-then-act window needs."""
+  wants_hot = True
+
+  def __init__(self, rng, p, p_hot, hold=0, novel=0):
+    self.rng, self.p, self.p_hot, self.hold = rng, p, p_hot, hold
+    self.quiet = 0    # steps during which the running thread is left alone
+    # novel = K > 0: a hot line counts as hot only the first K times a thread
+    # executes it (cold paths: first lookups, cache fills, table growth)
+    self.novel = novel
+    self.seen = {}
+    self.where = 0    # set by the scheduler before every decide()
+
+  def first(self, runnable):
+    return self.rng.choice(runnable)
+
+  def decide(self, tid, runnable, step_no, is_pause):
+    if self.quiet > 0:
+      self.quiet -= 1
+      return tid
+    if is_pause == 2 and self.novel:
+      key = (tid, self.where)
+      n = self.seen.get(key, 0)
+      if n >= self.novel:
+        is_pause = False
+      else:
+        self.seen[key] = n + 1
+    p = self.p_hot if is_pause == 2 else self.p
+    if len(runnable) > 1 and self.rng.random() < p:
+      if is_pause == 2 and self.hold:
+        # parked inside a hot function: whoever runs now gets a long stretch
+        self.quiet = self.rng.randint(0, self.hold)
+      return self.rng.choice([t for t in runnable if t != tid])
+    return tid
+
+  def on_exit(self, runnable):
+    return self.rng.choice(runnable)
+
+  on_block = on_exit
+
+
+_HOT_CACHE = {}
+
+
+def hot_lines(prefix):
+  """{filename: frozenset(line numbers)} for the .py files under prefix.
+
+  Static and therefore the same in every process: a function is hot if it
+  reads or writes a module-level name bound to a mutable object (list / dict /
+  set / tuple literal or a call) or declared `global`, or if it assigns a
+  private attribute (`self._x = ...`) outside `__init__`-like methods."""
+  import ast
+  import os
+  got = _HOT_CACHE.get(prefix)
+  if got is not None:
+    return got
+  out = {}
+  for root, _, files in sorted(os.walk(prefix)):
+    for fname in sorted(files):
+      if not fname.endswith('.py') or fname.endswith('_test.py'):
+        continue
+      path = os.path.join(root, fname)
+      try:
+        tree = ast.parse(open(path, encoding='utf-8').read())
+      except (SyntaxError, OSError, UnicodeDecodeError):
+        continue
+      shared = set()
+      for node in tree.body:
+        targets, value = [], None
+        if isinstance(node, ast.Assign):
+          targets, value = node.targets, node.value
+        elif isinstance(node, ast.AnnAssign) and node.value is not None:
+          targets, value = [node.target], node.value
+        if isinstance(value, (ast.List, ast.Dict, ast.Set, ast.Tuple, ast.Call,
+                              ast.ListComp, ast.DictComp, ast.SetComp)):
+          for t in targets:
+            if isinstance(t, ast.Name) and not t.id.isupper():
+              shared.add(t.id)
+      for node in ast.walk(tree):
+        if isinstance(node, ast.Global):
+          shared.update(node.names)
+      lines = set()
+      for fn in ast.walk(tree):
+        if not isinstance(fn, (ast.FunctionDef, ast.AsyncFunctionDef, ast.Lambda)):
+          continue
+        hot = False
+        for sub in ast.walk(fn):
+          if isinstance(sub, ast.Name) and sub.id in shared:
+            hot = True
+            break
+          # self._x[...] = v   /   self._x.append(...) etc.: a private
+          # container of a (possibly process-wide) object is modified
+          tgt = None
+          if isinstance(sub, ast.Subscript) and isinstance(sub.ctx, (ast.Store, ast.Del)):
+            tgt = sub.value
+          elif (isinstance(sub, ast.Call) and isinstance(sub.func, ast.Attribute)
+                and sub.func.attr in ('append', 'extend', 'add', 'clear', 'pop',
+                                      'update', 'setdefault', 'insert', 'remove',
+                                      'discard', 'popitem')):
+            tgt = sub.func.value
+          if (isinstance(tgt, ast.Attribute) and isinstance(tgt.value, ast.Name)
+              and tgt.value.id == 'self' and tgt.attr.startswith('_')
+              and not tgt.attr.startswith('__')
+              and getattr(fn, 'name', '') not in ('__init__', '__post_init__', '__new__')):
+            hot = True
+            break
+          if (isinstance(sub, ast.Attribute) and isinstance(sub.ctx, ast.Store)
+              and isinstance(sub.value, ast.Name) and sub.value.id == 'self'
+              and sub.attr.startswith('_') and not sub.attr.startswith('__')
+              and getattr(fn, 'name', '') not in ('__init__', '__post_init__',
+                                                  '__new__', '__setstate__')):
+            hot = True
+            break
+        if hot:
+          end = getattr(fn, 'end_lineno', fn.lineno)
+          lines.update(range(fn.lineno, end + 1))
+      if lines:
+        out[path] = frozenset(lines)
+  _HOT_CACHE[prefix] = out
+  return out
+
+
 class PCT:
   """Random priorities; d priority-change points at random step indices."""
 
@@ -163,6 +289,9 @@ def make_policy(desc, rng, n_threads):
     return PCT(rng, n_threads, desc['d'], desc['horizon'])
   if k == 'pause':
     return RunToPause(rng, desc.get('q', 0.6))
+  if k == 'hot':
+    return HotWalk(rng, desc.get('p', 0.01), desc.get('p_hot', 0.4), desc.get('hold', 0),
+                   desc.get('novel', 0))
   if k == 'script':
     return ScriptedPolicy(desc['turns'])
   raise ValueError(k)
@@ -195,6 +324,10 @@ class Sched:
     self.all_done = threading.Event()
     self.cur = None
     self.hooks = []   # fn(tid) called at every step while holding the baton
+    self.hot = {}
+    if getattr(policy, 'wants_hot', False):
+      for pre in self.prefixes:
+        self.hot.update(hot_lines(pre))
     self.blocked = {}     # tid -> SimLock it waits for
     self.lock_waits = 0
     self.deadlock = None
@@ -228,8 +361,10 @@ class Sched:
 
   def _local_trace(self, frame, event, arg):
     if event == 'line' or event == 'opcode':
-      self._step(self._file_idx[frame.f_code.co_filename] * 100003
-                 + frame.f_lineno, False)
+      fname = frame.f_code.co_filename
+      hot = self.hot and frame.f_lineno in self.hot.get(fname, ())
+      self._step(self._file_idx[fname] * 100003 + frame.f_lineno,
+                 2 if hot else False)
     return self._local_trace
 
   def pause(self, tag=0):
@@ -281,6 +416,8 @@ class Sched:
     if self.steps > self.step_cap:
       self.capped = True
       return
+    if self.hot:
+      self.policy.where = where
     nxt = self.policy.decide(tid, self.runnable(), self.steps, is_pause)
     if nxt != tid:
       self.switches += 1
